@@ -39,6 +39,20 @@ pub fn menu(l: L) -> Menu {
     }
 }
 
+/// Words around and beyond twenty letters (the stemmer's scratch buffer starts with room for twenty bytes): state kept
+/// inside the store's `Lang` is outside the canonical key, so these menus are explored without merging as well.
+pub fn menu_long(l: L) -> Menu {
+    let (long_title, mid_title, long_q, mid_q, short) = match l {
+        L::Ru => ("достопримечательностями города", "путешественники", "достопримечательность ", "путешественник", "бета"),
+        L::De => ("Geschwindigkeitsbegrenzungen heute", "Sehenswürdigkeiten", "geschwindigkeitsbegrenzung ", "sehenswürdigkeit", "beta"),
+        _ => ("internationalisations today", "misunderstandings", "internationalisation ", "misunderstanding", "beta"),
+    };
+    Menu {
+        recs: vec![rec(1, long_title, 3), rec(2, mid_title, 5), rec(3, short, 9)],
+        queries: ["", mid_q, long_q, short].iter().map(|s| s.to_string()).collect(),
+    }
+}
+
 pub fn op_name(m: &Menu, op: &Op) -> String {
     match op {
         Op::Add(i) => format!("add({},{:?},{})", m.recs[*i].0, m.recs[*i].1, m.recs[*i].2),
@@ -304,6 +318,9 @@ pub struct C10 {
 /// initial stores: empty, one record, three records, and a crowd of twelve (with limit 1 the candidate cap of 10 cuts)
 pub const STARTS: [&[usize]; 4] = [&[], &[0], &[0, 1, 2], &[0, 1, 2, 3, 5, 0, 1, 2, 3, 5, 1, 3]];
 
+/// pseudo start id of the long-word configurations
+pub const LONG: usize = 100;
+
 impl C10 {
     pub fn new(tier: Tier) -> C10 {
         let langs: Vec<L> = tier.pick(vec![L::None, L::En], LANGS.to_vec());
@@ -312,6 +329,10 @@ impl C10 {
             for s in 0..STARTS.len() {
                 configs.push((l, s));
             }
+        }
+        // long-word menus (start id LONG): Cyrillic (two bytes per letter), German, English
+        for l in [L::Ru, L::De, L::En] {
+            configs.push((l, LONG));
         }
         C10 { tier, configs }
     }
@@ -334,13 +355,28 @@ impl Prop for C10 {
         vec![Dom::new("bfs-configs", self.configs.len() as u64, 1)
             .budget(self.tier.pick(170, 3000))
             .note(format!(
-                "one merged BFS per (language, initial store: empty / 1 / 3 / a crowd of 12 records, the crowd one level shallower) to depth {} (thorough: +1 for the language-free store), followed by the same search without state matching to depth {} (every key it reaches must be known to the merged search); 21 operations enabled in every state (20 when C01 drives it without clear)",
+                "one merged BFS per (language, initial store: empty / 1 / 3 / a crowd of 12 records, the crowd one level shallower) to depth {} (thorough: +1 for the language-free store), followed by the same search without state matching to depth {} (every key it reaches must be known to the merged search); 21 operations enabled in every state (20 when C01 drives it without clear); plus, for ru / de / en, a menu of words around and beyond twenty letters (3 records, 4 queries) from the empty store, merged to depth-1 and without merging to the unmerged depth (state inside the store's Lang is outside the key)",
                 self.depth(true),
                 self.depth(false)
             ))]
     }
     fn run(&self, _dom: usize, idx: u64, cx: &mut Cx) {
         let (l, s) = self.configs[idx as usize];
+        if s == LONG {
+            // every store of these searches - the one with the history and the freshly built reference - gets a newly
+            // constructed Lang (elsewhere language objects are pooled per worker thread for speed, which would give the
+            // "fresh" store a language object with a past)
+            let sys = C10Sys { l, menu: menu_long(l), prop: "C10", allow_clear: !cx.c01 };
+            let (d, du) = (self.depth(true) - 1, self.depth(false));
+            let (cap, cap2) = (Duration::from_secs(self.tier.pick(60, 600)), Duration::from_secs(self.tier.pick(60, 600)));
+            with_fresh_langs(|| {
+                let out = bfs(&sys, cx, "long_merged_", vec![vec![]], d, true, cap, None);
+                cx.class(&format!("bfs:long-words:merged:depth{}", out.depth_completed));
+                let out2 = bfs(&sys, cx, "long_unmerged_", vec![vec![]], du, false, cap2, None);
+                cx.class(&format!("bfs:long-words:unmerged:depth{}", out2.depth_completed));
+            });
+            return;
+        }
         let sys = C10Sys { l, menu: menu(l), prop: "C10", allow_clear: !cx.c01 };
         let start: Vec<Op> = STARTS[s].iter().map(|i| Op::Add(*i)).collect();
         let cap = Duration::from_secs(self.tier.pick(120, 2400));
